@@ -305,11 +305,14 @@ def check_regions(c, scr):
         loops = [n for n in iter_nodes(f.node) if isinstance(n, ast.For)]
         ok = len(loops) == 2 and norm(loops[0].iter) == 'range(%s, %s + 1)' % (p[0], p[2]) and norm(loops[1].iter) == 'range(%s, %s + 1)' % (p[1], p[3])
         c.check(ok, f, loops[0] if loops else None, '%s visits rows rs..re and columns cs..ce inclusive' % f.name, witness=str([norm(l.iter) for l in loops]), kind='alg', tag='loops:' + f.name)
+    def loopvars(f):
+        ls = [n for n in iter_nodes(f.node) if isinstance(n, ast.For)]
+        return [l.target.id for l in ls if isinstance(l.target, ast.Name)]
     ks = [k for k in calls_in(f1.node) if callee_last(k) == 'put_abs']
-    ok = len(ks) == 1 and [norm(a) for a in ks[0].args] == ['r', 'c', f1.params[5]]
+    ok = len(ks) == 1 and [norm(a) for a in ks[0].args] == loopvars(f1)[:2] + [f1.params[5]]
     c.check(ok, f1, ks[0] if ks else None, 'fill_region writes the fill character at every visited cell', kind='ast', tag='fill-cell')
     ks = [k for k in calls_in(f2.node) if callee_last(k) == 'get_abs']
-    ok = len(ks) == 1 and [norm(a) for a in ks[0].args] == ['r', 'c']
+    ok = len(ks) == 1 and [norm(a) for a in ks[0].args] == loopvars(f2)[:2]
     c.check(ok, f2, ks[0] if ks else None, 'get_region reads every visited cell', kind='ast', tag='get-cell')
 
 
@@ -347,7 +350,9 @@ def check_compose(c, scr):
     g = f.cfg
     names = [callee_last(k) for k in calls_in(f.node)]
     t = [x for x in g.nodes if x.kind == 'test']
-    ok = names[:1] == ['cursor_down'] and len(t) == 1 and 'old_r == self.cur_r' in norm(t[0].ast).replace('self.cur_r == old_r', 'old_r == self.cur_r')
+    olds = [n.targets[0].id for n in iter_nodes(f.node) if isinstance(n, ast.Assign) and isinstance(n.targets[0], ast.Name) and norm(n.value) == 'self.cur_r']
+    ov = olds[0] if olds else 'old_r'
+    ok = names[:1] == ['cursor_down'] and len(t) == 1 and norm(t[0].ast) in ('%s == self.cur_r' % ov, 'self.cur_r == %s' % ov)
     sc = [n for n in (guard_region(g, t[0], 'true') if t else []) if any(callee_last(k) == 'scroll_up' for k in node_calls(n))]
     er = [n for n in (guard_region(g, t[0], 'true') if t else []) if any(callee_last(k) == 'erase_line' for k in node_calls(n))]
     c.check(ok and len(sc) == 1 and len(er) == 1 and g.dominated_by(er[0], {sc[0]})[0], f, t[0].ast if t else None,
